@@ -539,6 +539,10 @@ def _pipe(spec, hashseed, scratch, extra_env=None, cwd=None, timeout=420):
     return None, "rc=%s: %s" % (r.returncode, r.stderr.decode("utf-8", "replace")[-400:])
 
 
+def _job_name(job):
+    return job.get("input") or job.get("inputs") or job.get("source") or ("generated feature file #%s" % job.get("gen"))
+
+
 def _job_desc(job):
     return {k: v for k, v in job.items() if k != "id"}
 
@@ -603,7 +607,7 @@ def run_seeds(case, ctx, rnd):
             lab2 = next(l for l in labels if outcomes[l] != outcomes[labels[0]])
             ctx.violation({"kind": _kind_of_label(lab2), "pipeline": job["pipeline"],
                            "what": "outcome-differs", "outcomes": sorted(set(outcomes.values()))},
-                          "%s on %s: %s under seed %s but %s under %s" % (job["pipeline"], job.get("input") or job.get("inputs") or job.get("source"),
+                          "%s on %s: %s under seed %s but %s under %s" % (job["pipeline"], _job_name(job),
                                                                           outcomes[labels[0]], labels[0], outcomes[lab2], lab2),
                           {"job": _job_desc(job), "outcomes": outcomes,
                            "traceback": next((r.get("tb") for r in recs.values() if r and not r["ok"]), None)})
@@ -632,11 +636,11 @@ def run_seeds(case, ctx, rnd):
                 witness["env_reads"] = runs[lab]["env"].get(jid)
             ctx.violation({"kind": kind, "pipeline": job["pipeline"], "table": first},
                           "%s on %s is not deterministic: table %r differs between run %s and run %s"
-                          % (job["pipeline"], job.get("input") or job.get("inputs") or job.get("source"), first, labels[0], lab), witness)
+                          % (job["pipeline"], _job_name(job), first, labels[0], lab), witness)
             break
     ctx.note("pipeline jobs compared (%s)" % case["pipeline"], ok_jobs)
     ctx.sample = {"kind": "seeds", "pipeline": case["pipeline"], "jobs": len(jobs), "compared": ok_jobs,
-                  "interpreters": labels, "inputs": [j.get("input") or j.get("inputs") for j in jobs][:5]}
+                  "interpreters": labels, "inputs": [_job_name(j) for j in jobs][:5]}
 
 
 def _kind_of_label(lab):
